@@ -286,6 +286,10 @@ EXTRA_TREES = {
 }
 
 
+# manifest larger than the 8 KiB user-space buffer of the writer: a kill leaves a real prefix of the temporary file
+EXTRA_TREES["wide"] = {f"reel_{i % 3}/clip_{i:02d}_take_with_a_rather_long_name.bin": bytes([i]) * (i + 1) for i in range(40)}
+
+
 def tree_of(name):
     return S.TREES[name] if name in S.TREES else EXTRA_TREES[name]
 
@@ -298,8 +302,8 @@ def C(rel="", *args):
 # mtime and size / write a new file), the format set of the interrupted and the following create, tier
 WORLDS = [
     dict(id="flat-g0", tree="flat", steps=[], fmts=["md5"]),
-    dict(id="flat-g1", tree="flat", steps=[C("", "-h", "md5")], fmts=["md5"]),
-    dict(id="flat-g2mix", tree="flat", steps=[C("", "-h", "md5"), C("", "-h", "c4", "-n")], fmts=["xxh64", "md5"]),
+    dict(id="flat-g1", tree="flat", steps=[C("", "-h", "md5")], fmts=["md5"], two=True),
+    dict(id="flat-g2mix", tree="flat", steps=[C("", "-h", "md5"), C("", "-h", "c4", "-n")], fmts=["xxh64", "md5"], two=True),
     dict(id="flat-g11", tree="flat", steps=[C("", "-h", ("md5", "xxh64", "c4")[i % 3]) for i in range(11)], fmts=["md5"]),
     dict(id="deep-A", tree="deep", steps=[C("A", "-h", "md5"), C("", "-h", "md5")], fmts=["md5"]),
     dict(id="deep-latechild", tree="deep", steps=[C("", "-h", "md5"), C("A/deep", "-h", "c4"), C("B", "-h", "md5")], fmts=["md5", "c4"]),
@@ -328,6 +332,7 @@ WORLDS = [
         fmts=["md5"],
         ign=True,
     ),
+    dict(id="wide", tree="wide", steps=[C("", "-h", "md5", "-h", "c4")], fmts=["md5", "c4"]),
     dict(id="links", tree="links", steps=[C("", "-h", "xxh64")], fmts=["xxh64"]),
     dict(id="big", tree="big", steps=[C("", "-h", "xxh64")], fmts=["xxh64"], tier="thorough"),
     dict(id="deep-AB-g3", tree="deep", steps=[C("A/deep"), C("A"), C("B"), C(""), C("", "-n"), C("", "-h", "sha1")], fmts=["xxh64"], tier="thorough"),
@@ -550,8 +555,9 @@ def check_next(run, cid, b, copy_dir, fmts, allowed, inp):
     return got
 
 
-def state_key(root):
-    """the left-behind state up to the content of files that are not named like a manifest or chain file"""
+def state_key(root, exact):
+    """the left-behind state: exact (every byte of every file of every ascmhl folder), or up to the content of files that
+    are not named like a manifest or chain file (of those only: well-formed or not, empty or not)"""
     import hashlib
 
     h = hashlib.sha1()
@@ -560,8 +566,8 @@ def state_key(root):
             continue
         h.update(rel.encode("utf8", "surrogateescape") + b"\0" + v[0].encode())
         if v[0] == "f":
-            if rel.endswith(".mhl") or rel.endswith("ascmhl_chain.xml"):
-                h.update(v[1])
+            if exact or rel.endswith(".mhl") or rel.endswith("ascmhl_chain.xml"):
+                h.update(b"%d:" % len(v[1]) + v[1])
             else:
                 try:
                     ET.fromstring(v[1])
@@ -573,30 +579,48 @@ def state_key(root):
 
 
 # ------------------------------------------------------------------------------------------------ driver
-def write_modes(tier, first, last):
+ALL_MODES = ["lost", "flushed", "partial:one", "partial:half", "partial:last", "partial:mb", "full"]
+
+
+def write_modes(tier, k, ks, rnd, chosen):
+    """crash variants of the k-th effect, a write; ks = indices of all writes to the same file; chosen = the middle
+    write of that file that is cut in the quick tier"""
+    first, last = k == ks[0], k == ks[-1]
     if tier == "thorough":
-        return ["lost", "flushed", "partial:one", "partial:half", "partial:last", "partial:mb", "full"]
-    return (["lost"] if first or last else []) + ["partial:half", "full"] + (["partial:mb"] if last else [])
+        if first or last:
+            return ALL_MODES
+        return ["partial:half", "full", rnd.choice(["lost", "flushed", "partial:one", "partial:last", "partial:mb"])]
+    if first:
+        return ["lost", "partial:half"]
+    if last:
+        return ["lost", "partial:mb", "full"]
+    return ["partial:half"] if k == chosen else []
 
 
-def main():
-    run = Run(
-        "C15",
-        rule="case = (world, invocation variant of the interrupted create, crash point); crash point = k-th file-system effect below the "
-        "root (mkdir / open-for-write / write / flush / close / rename / remove; a write applied not at all with the buffer lost or "
-        "drained, cut at 1 / half / inside a multi-byte character / last byte, or fully), or the first read, or the k-th executed "
-        "source line of the package from the first effect on, or no crash; non-trivial = the child process really died at that point "
-        "(os._exit or SIGKILL) in a world with at least one history that has >= 1 committed generation",
-        bound="16 worlds (quick) / 18 (thorough): 0, 1, 2, 3, 6, 11 prior generations, flat and nested up to 3 levels (child committed before "
-        "parent, parent with 0 prior generations, child younger than the parent's first generation), prefix-sibling / space / NFC / NFD / "
-        "XML-special / U+2028 names, empty tree, empty dirs, symlinks, 1 MiB +-1 files, mixed format sets, -n, -sf, failed (exit 11) and "
-        "ignore-pattern generations; 8 invocation variants (root absolute / trailing slash / relative / '.', repeated -h, -n, -v with "
-        "XML-special author and comment, POSIX DST time zone, +13:45 zone), 2 per world (quick) or all (thorough); every effect of the "
-        "trace; <= 12 (quick, 4 worlds) / <= 150 (thorough) source-line crash points per world and variant",
-    )
-    rnd = random.Random(run.seed)
+class Rec:
+    """what a worker process records for one (world, variant) task; merged into the Run by the parent"""
+
+    def __init__(self, run, idx):
+        self.tier, self.seed, self.only = run.tier, run.seed, run.only
+        self.tmp = os.path.join(run.tmp, f"w{idx}")
+        os.makedirs(self.tmp)
+        self.cases, self.violations = [], []
+
+    def want(self, cid):
+        return self.only is None or self.only == cid
+
+    def case(self, cid, key=None, sample=None):
+        self.cases.append([cid, key, sample])
+
+    def violation(self, cid, what, witness_class, contract=None, inp=None):
+        self.violations.append([cid, what, witness_class, contract, inp])
+
+
+def do_task(run, wi, spec, variant):
     thorough = run.tier == "thorough"
-    worlds = [w for w in WORLDS if thorough or w.get("tier") != "thorough"]
+    wid, vn = spec["id"], variant[0]
+    pre = f"{wid}/{vn}/"
+    rnd = random.Random(f"{run.seed}/{pre}")
     copies = os.path.join(run.tmp, "c")
     os.makedirs(copies)
     serial = [0]
@@ -607,109 +631,178 @@ def main():
         shutil.copytree(b.dir, d, symlinks=True)
         return d
 
+    b = build_base(run, spec, wi)
+    if b.setup_error:
+        cid = pre + "setup"
+        run.case(cid, None)
+        run.violation(cid, b.setup_error, "setup/exit")
+        return
+    fmts = spec["fmts"]
+    strict = bool(b.strict)
+    # control 1: the following commands on the untouched old state
+    d = fresh(b)
+    absent = run_sequence(d, b, fmts)
+    shutil.rmtree(d, ignore_errors=True)
+    # count pass = the uninterrupted run: trace of effects; the completed state is control 2
+    d = fresh(b)
+    root = os.path.join(d, "t")
+    argv, cwd, tz = argv_for(d, b, variant, fmts)
+    tp = os.path.join(copies, "trace.json")
+    how, ccode = spawn({"kind": "count"}, argv, cwd, tz, root, tp)
+    with open(tp) as fh:
+        tr = json.load(fh)
+    events = tr["events"]
+    inp0 = {"world": wid, "argv": [a.replace(d, "<copy>") for a in argv], "cwd": cwd.replace(d, "<copy>"), "TZ": tz, "strict_roots": b.strict}
+    cid = pre + "complete"
+    if run.want(cid):
+        run.case(cid, None, sample={"case": cid, "exit": ccode, "effects": len(events), "lines": tr["lines"]})
+        if how != "completed" or ccode not in (0, 11):
+            run.violation(cid, f"the uninterrupted create {inp0['argv']} exits {ccode} ({how})", "setup/interrupted-create-exit", inp=inp0)
+        check_state(run, cid, b, root, "after the completed create", inp0)
+    present = run_sequence(d, b, fmts)
+    if run.want(cid):
+        check_state(run, cid, b, root, "after the completed and the following create", inp0)
+        for r, seq in present.items():
+            for i, (name, code, exc, tail) in enumerate(seq):
+                if exc is not None or code in ABORT_CODES:
+                    run.violation(cid, f"after a completed create, `{name}` on '{r or '.'}' exits {code} {exc}: {tail!r}", f"control/{name}", inp=inp0)
+    shutil.rmtree(d, ignore_errors=True)
+    allowed = [absent, present]
+    # ---- crash plans
+    plans = [("early", {"kind": "early", "k": 1}, ["ropen", None])]
+    if tr["reads"] > 1:
+        plans.append(("early-last", {"kind": "early", "k": tr["reads"]}, ["ropen", None]))
+    wr_idx = {}
+    for k, ev in enumerate(events):
+        if ev[0] in ("write", "oswrite"):
+            wr_idx.setdefault(ev[1], []).append(k)
+    chosen = {rel: rnd.choice(ks[1:-1]) for rel, ks in sorted(wr_idx.items()) if len(ks) > 2}
+    for k, ev in enumerate(events):
+        sig = "kill" if k % 3 == 2 else "exit"
+        if ev[0] in ("write", "oswrite"):
+            for m in write_modes(run.tier, k, wr_idx[ev[1]], rnd, chosen.get(ev[1])):
+                mode, _, cut = m.partition(":")
+                plans.append((f"fs{k:03d}-{m.replace(':', '-')}", {"kind": "fs", "k": k, "mode": mode, "cut": cut or "half", "sig": sig}, ev))
+        else:
+            plans.append((f"fs{k:03d}-pre", {"kind": "fs", "k": k, "mode": "pre", "sig": sig}, ev))
+    if events and (thorough or wi % 4 == 1):
+        lo = max(events[0][3] - 1, 1)
+        pts = list(range(lo, tr["lines"] + 1))
+        cap = 60 if thorough else 12
+        if len(pts) > cap:
+            must = sorted({e[3] + 1 for e in events if lo <= e[3] + 1 <= tr["lines"]})
+            must = must if len(must) <= cap // 2 else rnd.sample(must, cap // 2)
+            rest = [p for p in pts if p not in set(must)]
+            pts = sorted(set(must) | set(rnd.sample(rest, cap - len(must))))
+        for p in pts:
+            plans.append((f"line{p:05d}", {"kind": "line", "k": p, "sig": "kill" if p % 2 else "exit"}, ["line", None]))
+    if os.environ.get("C15_DEBUG"):
+        print(pre, len(events), "effects", tr["lines"], "lines", len(plans), "plans", file=sys.stderr)
+    seen = set()
+    for name, plan, ev in plans:
+        cid = pre + name
+        if not run.want(cid):
+            continue
+        d = fresh(b)
+        root = os.path.join(d, "t")
+        argv, cwd, tz = argv_for(d, b, variant, fmts)
+        how, code = spawn(plan, argv, cwd, tz, root, os.path.join(copies, "t"))
+        inp = dict(inp0, crash=plan, effect=ev[:3], child=how)
+        run.case(cid, [wid, vn, name] if (how == "killed" and strict) else None, sample={"case": cid, "effect": ev[:2], "child": how})
+        stage = f"after the kill at {name} ({ev[0]} {ev[1]})" if how == "killed" else "after the completed create"
+        nv = check_state(run, cid, b, root, stage, inp)
+        if strict:
+            # the following commands are run once per left-behind state of this world and variant: per exactly equal
+            # state (thorough; loses nothing, the commands are deterministic), per state up to the bytes of files
+            # that are not named like a manifest or chain file (quick)
+            key = state_key(root, exact=thorough)
+            if run.only or key not in seen or nv:
+                seen.add(key)
+                check_next(run, cid, b, d, fmts, allowed, inp)
+        shutil.rmtree(d, ignore_errors=True)
+    shutil.rmtree(b.dir, ignore_errors=True)
+
+
+def run_tasks(run, tasks, jobs):
+    """each task in a forked worker (which forks the processes to be killed), big ones first; results merged in task order"""
+    pending = sorted(enumerate(tasks), key=lambda it: -len(it[1][1]["steps"]))
+    running = {}
+    failed = []
+    while pending or running:
+        while pending and len(running) < jobs:
+            idx, t = pending.pop(0)
+            out = os.path.join(run.tmp, f"r{idx}.json")
+            sys.stdout.flush()
+            sys.stderr.flush()
+            pid = os.fork()
+            if pid == 0:
+                code = 0
+                try:
+                    rec = Rec(run, idx)
+                    do_task(rec, *t)
+                    with open(out, "w") as fh:
+                        json.dump({"cases": rec.cases, "violations": rec.violations}, fh)
+                    shutil.rmtree(rec.tmp, ignore_errors=True)
+                except BaseException:
+                    code = 1
+                    with open(out + ".err", "w") as fh:
+                        fh.write(traceback.format_exc())
+                finally:
+                    os._exit(code)
+            running[pid] = idx
+        pid, status = os.wait()
+        idx = running.pop(pid)
+        if status != 0:
+            failed.append(idx)
+    for idx, t in enumerate(tasks):
+        out = os.path.join(run.tmp, f"r{idx}.json")
+        if idx in failed or not os.path.exists(out):
+            err = open(out + ".err").read() if os.path.exists(out + ".err") else "worker died"
+            shutil.rmtree(run.tmp, ignore_errors=True)
+            raise RuntimeError(f"C15 worker for {t[1]['id']}/{t[2][0]} failed:\n{err}")
+        with open(out) as fh:
+            res = json.load(fh)
+        for cid, key, sample in res["cases"]:
+            run.case(cid, tuple(key) if key else None, sample=sample)
+        for cid, what, wclass, contract, inp in res["violations"]:
+            run.violation(cid, what, wclass, contract=contract, inp=inp)
+
+
+def main():
+    run = Run(
+        "C15",
+        rule="case = (world, invocation variant of the interrupted create, crash point); crash point = k-th file-system effect below the "
+        "root (mkdir / open-for-write / write / flush / close / rename / remove; a write applied not at all with the buffer lost or "
+        "drained, cut at 1 / half / inside a multi-byte character / last byte, or fully), or the first / last read, or the k-th "
+        "executed source line of the package from the first effect on, or no crash; non-trivial = the child process really died at "
+        "that point (os._exit or SIGKILL) in a world with at least one history that has >= 1 committed generation",
+        bound="17 worlds (quick) / 19 (thorough): 0, 1, 2, 3, 6, 11 prior generations, flat and nested up to 3 levels (child committed before "
+        "parent, parent with 0 prior generations, child younger than the parent's first generation), prefix-sibling / space / NFC / NFD / "
+        "XML-special / U+2028 names, empty tree, empty dirs, symlink, a 40-file tree whose manifest exceeds the 8 KiB write buffer, 1 MiB +-1 files, mixed format sets, -n, -sf, failed (exit 11) and "
+        "ignore-pattern generations; 8 invocation variants (root absolute / trailing slash / relative / '.', repeated -h, -n, -v with "
+        "XML-special author and comment, POSIX DST time zone, +13:45 zone): 1-2 per world (quick), all for worlds <= 2 histories and 4 for "
+        "the others (thorough); every effect of the trace (quick: first, last and one middle write per file; thorough: every write "
+        "in >= 3 ways, first and last in 7); <= 12 (quick, 4 worlds) / <= 60 (thorough) source-line crash points per world and variant",
+    )
+    thorough = run.tier == "thorough"
+    worlds = [w for w in WORLDS if thorough or w.get("tier") != "thorough"]
+    tasks = []
+    nv = len(VARIANTS)
     for wi, spec in enumerate(worlds):
         wid = spec["id"]
-        if run.only and not run.only.startswith(wid + "/"):
-            continue
         if os.environ.get("C15_WORLDS") and wid not in os.environ["C15_WORLDS"].split(","):
             continue
-        b = build_base(run, spec, wi)
-        if b.setup_error:
-            cid = f"{wid}/setup"
-            run.case(cid, None)
-            run.violation(cid, b.setup_error, "setup/exit")
-            continue
-        fmts = spec["fmts"]
-        strict = bool(b.strict)
-        # control: the following commands on the untouched old state
-        d = fresh(b)
-        absent = run_sequence(d, b, fmts)
-        shutil.rmtree(d, ignore_errors=True)
         if thorough:
-            variants = VARIANTS
+            nh = len({s[1] for s in spec["steps"] if s[0].startswith("create")})
+            variants = VARIANTS if nh <= 2 else [VARIANTS[(wi + j * 2) % nv] for j in range(4)]
         else:
-            variants = [VARIANTS[(2 * wi) % len(VARIANTS)], VARIANTS[(2 * wi + 1) % len(VARIANTS)]]
+            variants = [VARIANTS[wi % nv]] + ([VARIANTS[(wi + 3) % nv]] if spec.get("two") else [])
         for variant in variants:
-            vn = variant[0]
-            pre = f"{wid}/{vn}/"
-            if run.only and not run.only.startswith(pre):
+            if run.only and not run.only.startswith(f"{wid}/{variant[0]}/"):
                 continue
-            # count pass = the uninterrupted run: trace of effects, and the completed state as second control
-            d = fresh(b)
-            root = os.path.join(d, "t")
-            argv, cwd, tz = argv_for(d, b, variant, fmts)
-            tp = os.path.join(copies, f"trace{serial[0]}.json")
-            how, ccode = spawn({"kind": "count"}, argv, cwd, tz, root, tp)
-            tr = json.load(open(tp))
-            events = tr["events"]
-            inp0 = {"world": wid, "argv": [a.replace(d, "<copy>") for a in argv], "cwd": cwd.replace(d, "<copy>"), "TZ": tz, "strict_roots": b.strict}
-            cid = pre + "complete"
-            if run.want(cid):
-                run.case(cid, None, sample={"case": cid, "exit": ccode, "effects": len(events), "lines": tr["lines"]})
-                if how != "completed" or ccode not in (0, 11):
-                    run.violation(cid, f"the uninterrupted create {inp0['argv']} exits {ccode} ({how})", "setup/interrupted-create-exit", inp=inp0)
-                check_state(run, cid, b, root, "after the completed create", inp0)
-            present = run_sequence(d, b, fmts)
-            if run.want(cid):
-                check_state(run, cid, b, root, "after the completed and the following create", inp0)
-                for r, seq in present.items():
-                    for i, (name, code, exc, tail) in enumerate(seq):
-                        if exc is not None or code in ABORT_CODES:
-                            run.violation(cid, f"after a completed create, `{name}` on '{r or '.'}' exits {code} {exc}: {tail!r}", f"control/{name}", inp=inp0)
-            shutil.rmtree(d, ignore_errors=True)
-            allowed = [absent, present]
-            # ---- crash plans
-            plans = []
-            plans.append(("early", {"kind": "early", "k": 1}, ["ropen", None]))
-            if tr["reads"] > 1:
-                plans.append(("early-last", {"kind": "early", "k": tr["reads"]}, ["ropen", None]))
-            wr_idx = {}
-            for k, ev in enumerate(events):
-                if ev[0] in ("write", "oswrite"):
-                    wr_idx.setdefault(ev[1], []).append(k)
-            for k, ev in enumerate(events):
-                sig = "kill" if k % 3 == 2 else "exit"
-                if ev[0] in ("write", "oswrite"):
-                    ks = wr_idx[ev[1]]
-                    for m in write_modes(run.tier, k == ks[0], k == ks[-1]):
-                        mode, _, cut = m.partition(":")
-                        plans.append((f"fs{k:03d}-{m.replace(':', '-')}", {"kind": "fs", "k": k, "mode": mode, "cut": cut or "half", "sig": sig}, ev))
-                else:
-                    plans.append((f"fs{k:03d}-pre", {"kind": "fs", "k": k, "mode": "pre", "sig": sig}, ev))
-            if events and (thorough or wi % 4 == 1):
-                lo = max(events[0][3] - 1, 1)
-                pts = list(range(lo, tr["lines"] + 1))
-                cap = 150 if thorough else 12
-                if len(pts) > cap:
-                    must = sorted({e[3] + 1 for e in events if lo <= e[3] + 1 <= tr["lines"]})
-                    rnd2 = random.Random(f"{run.seed}/{pre}")
-                    must = must if len(must) <= cap // 2 else rnd2.sample(must, cap // 2)
-                    rest = [p for p in pts if p not in set(must)]
-                    pts = sorted(set(must) | set(rnd2.sample(rest, cap - len(must))))
-                for p in pts:
-                    plans.append((f"line{p:05d}", {"kind": "line", "k": p, "sig": "kill" if p % 2 else "exit"}, ["line", None]))
-            seen = set()
-            if os.environ.get("C15_DEBUG"):
-                print(pre, len(events), "events", tr["lines"], "lines", len(plans), "plans", [e[0][0] for e in events], file=sys.stderr)
-            for name, plan, ev in plans:
-                cid = pre + name
-                if not run.want(cid):
-                    continue
-                d = fresh(b)
-                root = os.path.join(d, "t")
-                argv, cwd, tz = argv_for(d, b, variant, fmts)
-                how, code = spawn(plan, argv, cwd, tz, root, os.path.join(copies, f"t{serial[0]}"))
-                inp = dict(inp0, crash=plan, effect=ev[:3], child=how)
-                run.case(cid, (wid, vn, name) if (how == "killed" and strict) else None, sample={"case": cid, "effect": ev[:2], "child": how})
-                nv = check_state(run, cid, b, root, f"after the kill at {name} ({ev[0]} {ev[1]})" if how == "killed" else "after the completed create", inp)
-                if strict:
-                    key = state_key(root)
-                    # quick tier: the commands are run once per distinct left-behind state of this world and variant
-                    if thorough or run.only or key not in seen or nv:
-                        seen.add(key)
-                        check_next(run, cid, b, d, fmts, allowed, inp)
-                shutil.rmtree(d, ignore_errors=True)
-        shutil.rmtree(b.dir, ignore_errors=True)
+            tasks.append((wi, spec, variant))
+    jobs = int(os.environ.get("C15_JOBS", "0") or 0) or max(2, min(8, (os.cpu_count() or 4) // 2))
+    run_tasks(run, tasks, jobs)
     run.finish()
 
 
